@@ -153,6 +153,19 @@ var c12Actions = []struct {
 	{"function-error", `map("a")`, false, ""},
 	{"function-error", "isset()", false, ""},
 	{"function-error", "wrappedfn()", false, ""},
+	{"call-kind", `fnilfn("a")`, true, ""},
+	{"call-kind", `fstr | fnilfn`, true, ""},
+	{"call-kind", `fholder.F("a")`, true, ""},
+	{"argument-kind", `farr4(fxs)`, true, ""},
+	{"placeholder", `passthru(_)`, true, ""},
+	{"placeholder", `map("a", _)`, true, ""},
+	{"range-kind", "range fnilranger.R }}x{{ end", true, ""},
+	{"range-kind", "range fsendonly }}x{{ end", true, ""},
+	{"assign-kind", ".Age = 2", true, ""},
+	{"assign-kind", `fuser.Name = "x"`, true, ""},
+	{"assign-kind", `fpuser.Age = "x"`, true, ""},
+	{"index-kind", `fikmap[fxs]`, true, ""},
+	{"nil-deref", "fnilinner.Hello()", true, ""},
 	{"function-error", "fstr | wrappedfn", false, ""},
 	{"function-error", "x := wrappedfn(1, 2)", false, ""},
 }
@@ -162,6 +175,7 @@ type c12Gen struct {
 	p      *mj.Program
 	uniq   int
 	labels map[string]bool
+	blocks []*mj.Node // further blocks for the imported library
 }
 
 func (g *c12Gen) n(lo, hi int, l string) int { return rapid.IntRange(lo, hi).Draw(g.t, l) }
@@ -198,9 +212,15 @@ func (g *c12Gen) nest(depth int, inner []*mj.Node) []*mj.Node {
 		return inner
 	}
 	in := append(append(g.filler(), g.nest(depth-1, inner)...), g.filler()...)
-	k := g.n(0, 4, "nestkind")
-	g.labels[[]string{"in:if", "in:range", "in:block", "in:yield-content", "in:else"}[k]] = true
+	k := g.n(0, 5, "nestkind")
+	g.labels[[]string{"in:if", "in:range", "in:block", "in:yield-content", "in:else", "in:content-of-a-block-with-declaring-lists"}[k]] = true
 	switch k {
+	case 5:
+		// the content is rendered from inside two lists of the block's body that have each declared a variable
+		name := g.id("dblk")
+		g.blocks = append(g.blocks, &mj.Node{K: "block", Name: name, Body: []*mj.Node{mj.Let(g.id("outerdecl"), mj.Num(1)),
+			mj.If(mj.Bool(true), []*mj.Node{mj.Let(g.id("innerdecl"), mj.Num(2)), {K: "ycontent"}}, nil)}})
+		return []*mj.Node{mj.Let(g.id("sitedecl"), mj.Num(0)), {K: "yield", Name: name, HasCont: true, Content: in}}
 	case 0:
 		return []*mj.Node{mj.If(mj.Bool(true), in, nil)}
 	case 1:
@@ -233,6 +253,14 @@ func genC12(t *rapid.T) c12Case {
 	g.p.Vars["fembok"] = mj.Recipe{T: "emb", S: "promoted"}
 	g.p.Vars["fmap"] = mj.Recipe{T: "map[string]int", Keys: []string{"k"}, Is: []int64{1}}
 	g.p.Vars["fch"] = mj.Recipe{T: "chan int", Is: []int64{1}}
+	g.p.Vars["fnilfn"] = mj.Recipe{T: "nilfunc-string"}
+	g.p.Vars["fholder"] = mj.Recipe{T: "funcholder"}
+	g.p.Vars["farr4"] = mj.Recipe{T: "arr4func"}
+	g.p.Vars["fnilranger"] = mj.Recipe{T: "rangerholder"}
+	g.p.Vars["fsendonly"] = mj.Recipe{T: "chan<- int"}
+	g.p.Vars["fpuser"] = mj.Recipe{T: "*user", S: "pu"}
+	g.p.Vars["fikmap"] = mj.Recipe{T: "map[any]int"}
+	g.p.Vars["fnilinner"] = mj.Recipe{T: "nil*valrecv"}
 	d := mj.Recipe{T: "user", S: "ctxuser"}
 	g.p.Data = &d
 	a := c12Actions[g.n(0, len(c12Actions)-1, "action")]
@@ -259,6 +287,7 @@ func genC12(t *rapid.T) c12Case {
 		{K: "block", Name: "pblock", Params: []mj.Param{{Name: "p", E: mj.Str("pd")}}, Body: []*mj.Node{mj.Text("pblock")}},
 		{K: "block", Name: "nblock", Body: []*mj.Node{mj.Text("nblock")}},
 	}}
+	lib.Body = append(lib.Body, g.blocks...)
 	main := &mj.File{Path: pMain, Imports: []string{pLib}}
 	g.p.Files = []*mj.File{main, lib}
 	if g.p.PriorEntry != "" {
